@@ -1,5 +1,7 @@
 import PynnVerif.Proofs.RowWise
 import PynnVerif.Proofs.LowHigh
+import PynnVerif.Proofs.GenLeafUpdates
+import PynnVerif.Proofs.GenGraphUpdates
 import Mathlib.Data.Nat.Basic  -- `LinearOrder Nat` for the concrete examples at the end
 
 /-!
@@ -59,6 +61,74 @@ theorem self_pair_offered_twice_is_noop (u : Upd P) (h : u.p = u.q) (row : Row P
     feedCount row (offersFor u.p [u]) = feedCount row [(u.d, (u.p : Int))] := by
   rw [offersFor_self u h]
   exact ⟨rfl, (self_pair_noop row u.d u.p).1, (self_pair_noop row u.d u.p).2⟩
+
+/-- **`pynndescent_.generate_leaf_updates` is the model's `leafUpdates`.**  `Gen/Kernels.lean` (regenerated from the
+source on every run) holds its translation: `dist` a function parameter applied to rows of `data`, one update list
+per row of `leaf_block` starting with the placeholder `(-1, -1, inf)`, the two `break`s at the first negative entry,
+`for j in range(i + 1, …)`, the short-circuit test `d < thr[p] or d < thr[q]`.  For a rectangular `leaf_block`
+(`m` rows of `w` entries) whose non-negative entries are row numbers of `data`, of `dist_thresholds` and `< N`, and
+`fuel ≥ m + 2w + 2`: the translated kernel never reads outside an array; list `r` of its result is the placeholder
+followed by exactly the model's `leafUpdates` of row `r` — every pair `i < j` of the valid prefix whose distance beats
+one of the two thresholds, in the code's order — with `thr p = dist_thresholds[p]`, `dist' p q = dist data[p] data[q]`;
+read through `updOf` (placeholders dropped) it *is* that list; and every triple satisfies `OkTriple N`, the
+precondition of the appliers' refinement theorems (C12).  No order axioms. -/
+theorem kernel_generate_leaf_updates_refines {Q : Type} [LE Q] [LT Q] [DecidableLE Q] [DecidableLT Q]
+    (leaf_block : Array (Array Int)) (th : Array Q) (data : Array (Array Q))
+    (dist : Array Q → Array Q → Q) (top : Q) (w N : Nat)
+    (hw : ∀ r (h : r < leaf_block.size), leaf_block[r].size = w)
+    (hok : ∀ r (h : r < leaf_block.size), LeafRowOk leaf_block[r] data.size)
+    (hok' : ∀ r (h : r < leaf_block.size), LeafRowOk leaf_block[r] th.size)
+    (hN : ∀ r (h : r < leaf_block.size), LeafRowOk leaf_block[r] N)
+    (fuel : Nat) (hf : leaf_block.size + w + w + 2 ≤ fuel) :
+    ∃ U', GenK.generate_leaf_updates fuel top leaf_block th data dist = some U' ∧ U'.size = leaf_block.size ∧
+      (∀ r (h : r < U'.size) (h' : r < leaf_block.size),
+        U'[r] = #[((-1 : Int), (-1 : Int), top)] ++
+          ((leafUpdates (thrOf th top) (distOf data dist) leaf_block[r].toList).map triple).toArray ∧
+        U'[r].toList.filterMap updOf = leafUpdates (thrOf th top) (distOf data dist) leaf_block[r].toList) ∧
+      (∀ b ∈ U'.toList, ∀ x ∈ b.toList, OkTriple N x) :=
+  generate_leaf_updates_refines' leaf_block th data dist top w N hw hok hok' hN fuel hf
+
+/-- the generated `generate_leaf_updates` executed by the Lean kernel (`Nat` "distances": `dist a b = |a[0] - b[0]|`):
+one leaf row `[0, 2, 1, -1]` over the points `5, 9, 6` with thresholds `2, 100, 0`: the pairs `(0,2)` (distance 4: beats
+only the threshold of 2) … the hole `-1` ends both loops; a leaf entry `7` beyond `data` makes the kernel read out of bounds -/
+example : GenK.generate_leaf_updates 12 (1000 : Nat) #[#[0, 2, 1, -1]] #[2, 0, 100] #[#[5], #[6], #[9]]
+      (fun a b => if a[0]! ≤ b[0]! then b[0]! - a[0]! else a[0]! - b[0]!)
+    = some #[#[(-1, -1, 1000), (0, 2, 4), (0, 1, 1), (2, 1, 3)]] := by decide +kernel
+example : (GenK.generate_leaf_updates 12 (1000 : Nat) #[#[0, 7]] #[2, 0, 100] #[#[5], #[6], #[9]]
+      (fun a b => a[0]! + b[0]!)).isSome = false := by decide +kernel
+
+/-- **`pynndescent_.generate_graph_updates` (the local join) is the model's `joinUpdates`.**  For candidate blocks
+`new_candidate_block`, `old_candidate_block` of the same shape (`m` rows of `w = max_candidates` entries) whose
+non-negative entries are row numbers of `data`, of `dist_thresholds` and `< N`, and `fuel ≥ m + 2w + 3`: the translated
+kernel never reads outside an array; list `i` of its result is the placeholder followed by exactly the model's
+`joinUpdates` of the two candidate rows of vertex `i` — for every new candidate `p`: the new candidates from its own
+position on (self pair included), then all old candidates, negative entries skipped, test `d ≤ thr p ∨ d ≤ thr q`, in
+the code's order; read through `updOf` it *is* that list; and every triple satisfies `OkTriple N`, so the result feeds
+the appliers' refinement theorems (C12) — `local_join_delivers_both` then speaks about updates the generated kernel
+produced.  No order axioms. -/
+theorem kernel_generate_graph_updates_refines {Q : Type} [LE Q] [LT Q] [DecidableLE Q] [DecidableLT Q]
+    (nb ob : Array (Array Int)) (th : Array Q) (data : Array (Array Q))
+    (dist : Array Q → Array Q → Q) (top : Q) (w N : Nat) (hob : ob.size = nb.size)
+    (hw : ∀ r (h : r < nb.size), nb[r].size = w ∧ (ob[r]'(by omega)).size = w)
+    (hok : ∀ r (h : r < nb.size), LeafRowOk nb[r] data.size ∧ LeafRowOk nb[r] th.size ∧
+      LeafRowOk (ob[r]'(by omega)) data.size ∧ LeafRowOk (ob[r]'(by omega)) th.size)
+    (hN : ∀ r (h : r < nb.size), LeafRowOk nb[r] N ∧ LeafRowOk (ob[r]'(by omega)) N)
+    (fuel : Nat) (hf : nb.size + w + w + 3 ≤ fuel) :
+    ∃ U', GenK.generate_graph_updates fuel top nb ob th data dist = some U' ∧ U'.size = nb.size ∧
+      (∀ r (h : r < U'.size) (h' : r < nb.size),
+        U'[r] = #[((-1 : Int), (-1 : Int), top)] ++
+          ((joinUpdates (thrOf th top) (distOf data dist) nb[r].toList (ob[r]'(by omega)).toList).map triple).toArray ∧
+        U'[r].toList.filterMap updOf
+          = joinUpdates (thrOf th top) (distOf data dist) nb[r].toList (ob[r]'(by omega)).toList) ∧
+      (∀ b ∈ U'.toList, ∀ x ∈ b.toList, OkTriple N x) :=
+  generate_graph_updates_refines nb ob th data dist top w N hob hw hok hN fuel hf
+
+/-- the generated local join executed by the Lean kernel: vertex 0 with new candidates `[1, -1, 2]` and old candidates
+`[0, -1, -1]` over the points `5, 6, 9` (distance `|a - b|`), thresholds `0, 3, 100`: the self pairs `(1,1,0)`, `(2,2,0)`, the
+pair `(1,2,3)` and the new × old pairs `(1,0,1)`, `(2,0,4)`; the `-1` holes are skipped, not stopped at -/
+example : GenK.generate_graph_updates 12 (1000 : Nat) #[#[1, -1, 2]] #[#[0, -1, -1]] #[0, 3, 100] #[#[5], #[6], #[9]]
+      (fun a b => if a[0]! ≤ b[0]! then b[0]! - a[0]! else a[0]! - b[0]!)
+    = some #[#[(-1, -1, 1000), (1, 1, 0), (1, 2, 3), (1, 0, 1), (2, 2, 0), (2, 0, 4)]] := by decide +kernel
 
 /-- **A single leaf is exact.**  Let `leaf` enumerate the points `0..n-1` exactly once (trailing
 `-1` padding allowed), `dist` be symmetric with finite values, and
